@@ -14,10 +14,29 @@ def arg_text(a):
     return s
 
 
-def template_text(tmpl, version="1.0", target=None):
+# fixed keyword arguments on every operation with arguments; the FIRST such operation of a template also carries a feed-forward one
+# (one operation only: a register shared by two operations would be a dependency between them)
+KW_TEXT = ", lst=[1, 2.5], s=\"txt\""
+KW_FF = ", eps=2*q9+1"
+
+
+def first_with_args(tmpl):
+    return next((i for i, o in enumerate(tmpl) if o["args"]), None)
+
+
+def fixed_kwargs(ff):
+    import sympy as sym
+    from blackbird.listener import RegRefTransform
+    d = {"eps": RegRefTransform(2 * sym.Symbol("q9") + 1)} if ff else {}
+    d.update({"lst": [1, 2.5], "s": "txt"})
+    return d
+
+
+def template_text(tmpl, version="1.0", target=None, kw=True):
     lines = ["name tm", "version %s" % version] + (["target %s" % target] if target else []) + [""]
-    for o in tmpl:
-        args = "(%s)" % ", ".join(arg_text(a) for a in o["args"]) if o["args"] else ""
+    k0 = first_with_args(tmpl)
+    for i, o in enumerate(tmpl):
+        args = "(%s%s)" % (", ".join(arg_text(a) for a in o["args"]), ((KW_FF if i == k0 else "") + KW_TEXT) if kw else "") if o["args"] else ""
         lines.append("%s%s | %s" % (o["name"], args, ", ".join(str(m) for m in o["modes"]) if len(o["modes"]) == 1 else str(list(o["modes"]))))
     return "\n".join(lines) + "\n"
 
@@ -35,12 +54,13 @@ def build_program(tmpl, env, perm, version="1.0", target=None, edit=None):
     if target:
         bb._target["name"] = target
     ops = []
+    k0 = first_with_args(tmpl)
     for pos in range(len(perm)):
         o = tmpl[perm[pos] - 1]
         d = {"op": o["name"], "modes": list(o["modes"])}
         if o["args"]:
             d["args"] = [inst_value(a, env) for a in o["args"]]
-            d["kwargs"] = {}
+            d["kwargs"] = fixed_kwargs(perm[pos] - 1 == k0)
         ops.append(d)
     if edit:
         k = edit["k"] - 1
